@@ -136,6 +136,12 @@ func checkC02(c *Ctx) {
 		c.anchorMissing("FLOW-hash-version", "no hashing call sites found")
 	}
 
+	// ---- (2b) a memoised hash never survives a structural change
+	c.rule("TYPESTATE-stale-hash", "fields that enter the hash pre-image are written only on freshly copied nodes", 15)
+	checkStaleHashV1(c)
+	// a Remove of an absent key must not replace the (persisted) root by an unsaved copy: the next commit would re-stamp it
+	checkRemoveAbsent(c)
+
 	// ---- (3)
 	nodeT := l.NamedType("", "Node")
 	nkT := l.NamedType("", "NodeKey")
@@ -281,4 +287,67 @@ func freeVarSource(l *Loaded, fn *ssa.Function, fv *ssa.FreeVar, pred func(b ssa
 		return false, "closure binding not found"
 	}
 	return res, why
+}
+
+// checkStaleHashV1: key, value, size, height and the child pointers determine a
+// node's hash.  A node's hash is memoised (WorkingHash, proofs), so these
+// fields may be written only on a node whose memo is known to be empty: one
+// allocated here or returned by a fresh-constructor (clone() resets the
+// hash), or a parameter that is such at every caller.  `nodeKey == nil` is NOT
+// enough: an unsaved node may already carry a memoised hash.
+func checkStaleHashV1(c *Ctx) {
+	l := c.L
+	fa := &freshAnalysis{l: l, nodeT: l.NamedType("", "Node"), nkT: l.NamedType("", "NodeKey"), fNodeKey: l.Field("", "Node", "nodeKey"), fHash: l.Field("", "Node", "hash"),
+		ctor: map[*ssa.Function]int{}, paramMemo: map[*ssa.Parameter]int{}, noUnsavedGuard: true}
+	if fa.nodeT == nil || fa.fHash == nil {
+		c.anchorMissing("TYPESTATE-stale-hash", "Node / Node.hash")
+		return
+	}
+	structural := map[string]bool{"key": true, "value": true, "size": true, "subtreeHeight": true, "leftNode": true, "rightNode": true}
+	exceptions := map[string]string{
+		"(*iavl.MutableTree).saveNewNodes": "drops the in-memory child pointers after the node was hashed and queued (the pre-image uses the child hashes, already final)",
+		"(*iavl.Importer).Add":             "drops the child pointers of importer-private nodes after they were hashed and written",
+	}
+	n := 0
+	for _, fn := range l.SrcFuncs {
+		if l.pkgPathOf(fn) != l.ModPath || isPrintingUtility(fn) {
+			continue
+		}
+		top := fn
+		for top.Parent() != nil {
+			top = top.Parent()
+		}
+		allInstrs(fn, func(in ssa.Instruction) {
+			st, ok := in.(*ssa.Store)
+			if !ok {
+				return
+			}
+			fad, ok := st.Addr.(*ssa.FieldAddr)
+			if !ok {
+				return
+			}
+			nn := derefNamed(fad.X.Type())
+			if nn == nil || nn.Obj() != fa.nodeT.Obj() || !structural[fieldName(fad.X.Type(), fad.Field)] {
+				return
+			}
+			n++
+			key := l.fname(fn) + " store Node." + fieldName(fad.X.Type(), fad.Field)
+			base := stripTrivial(fad.X)
+			switch {
+			case fa.freshValue(base, fn, 0, true):
+				c.ok("TYPESTATE-stale-hash", key, l.ipos(st), "node allocated here / returned by a fresh-constructor (hash memo empty), or such at every caller")
+			case hashNilGuard(base, st, fa.fHash):
+				c.ok("TYPESTATE-stale-hash", key, l.ipos(st), "behind a `hash == nil` test")
+			default:
+				if why, ok := exceptions[l.fname(top)]; ok && (fieldName(fad.X.Type(), fad.Field) == "leftNode" || fieldName(fad.X.Type(), fad.Field) == "rightNode") && isNilConst(stripTrivial(st.Val)) {
+					c.ok("TYPESTATE-stale-hash", key, l.ipos(st), "exception: "+why)
+					return
+				}
+				c.bad("TYPESTATE-stale-hash", key, l.ipos(st), "a field that enters the hash pre-image is written on a node whose memoised hash may be set (base `"+roleOf(l, base, "", 0)+"` is not a fresh copy): the stale hash is committed, and the root hash then depends on whether a read-only hash query ran before")
+			}
+		})
+	}
+	if n == 0 {
+		c.anchorMissing("TYPESTATE-stale-hash", "no structural node stores found")
+	}
 }
